@@ -23,12 +23,19 @@
   onestep_check    {"program":…, "types":…, "mono":monomial, "terms":[[monomial,"c"],…], ["cap":4096]}
       E over one iteration of `mono`  =  Σ c · monomial(state)   on every Γ-state, as polynomials in the untyped
       variables (the constant of the recurrence is the term with monomial [])
-      → {"ok":true, "holds":true,  "counterexample":null, "states":k}
-      → {"ok":true, "holds":false, "counterexample":{"assign":{…}, "lhs":polynomial, "rhs":polynomial}, "states":k}
-      → {"ok":true, "holds":null,  "refused":reason, "states":k}
+      every answer carries "validator":"V2"|"V2C" — discrete fragment: `checkOneStep` (`checkOneStep_sound`,
+      `recurrence_holds_forall_n`); programs with continuous draws (not `Fragment`, but `FragmentC`): `checkOneStepC`
+      of `Polar/ValidateStepC.lean` (the atoms drawn in the step are integrated out with `momentSpec`; soundness
+      `checkOneStepC_sound`, `recurrence_holds_forall_nC`, `recurrence_holds_from_zeroC` in
+      `PolarProofs/ValidateStepC.lean`)
+      → {"ok":true, "holds":true,  "counterexample":null, "states":k, "validator":v}
+      → {"ok":true, "holds":false, "counterexample":{"assign":{…}, "lhs":polynomial, "rhs":polynomial}, "states":k,
+         "validator":v}
+      → {"ok":true, "holds":null,  "refused":reason, "states":k, "validator":v}
 -/
 import Polar.Ops
 import Polar.Validate
+import Polar.ValidateStepC
 
 namespace Polar
 open Lean
@@ -93,14 +100,17 @@ def opOneStepCheck (j : Json) : D Json := do
   let terms ← decTerms (← jField j "terms")
   let cap := decCap j
   let k := Json.num (card Γ)
-  match oneStepCex cap Γ P m terms with
-  | .error e => pure (okJson [("holds", Json.null), ("refused", Json.str e), ("states", k)])
-  | .ok none => pure (okJson [("holds", Json.bool true), ("counterexample", Json.null), ("states", k)])
+  -- discrete fragment: `checkOneStep_sound`; with continuous draws: `checkOneStepC_sound`
+  let useC := !Fragment P && FragmentC P
+  let val := ("validator", Json.str (if useC then "V2C" else "V2"))
+  match (if useC then oneStepCexC cap Γ P m terms else oneStepCex cap Γ P m terms) with
+  | .error e => pure (okJson [("holds", Json.null), ("refused", Json.str e), ("states", k), val])
+  | .ok none => pure (okJson [("holds", Json.bool true), ("counterexample", Json.null), ("states", k), val])
   | .ok (some c) =>
     pure (okJson [("holds", Json.bool false),
       ("counterexample", Json.mkObj [("assign", vJsonAssign c.assign), ("lhs", vJsonPoly c.lhs),
                                       ("rhs", vJsonPoly c.rhs)]),
-      ("states", k)])
+      ("states", k), val])
 
 end Validate
 
